@@ -1684,6 +1684,68 @@ func ruleStdioDelivery(c *Ctx) {
 					}
 				}
 			}
+			// a table of the writers (map[Channel]io.Writer{STDOUT: stdout, …}) assigned
+			// once: a comma-ok lookup selects a writer exactly when ok is true
+			tableDefs := map[*types.Var]int{}
+			isTable := map[*types.Var]bool{}
+			for _, m := range g.Nodes {
+				if m.Ast == nil {
+					continue
+				}
+				defs, _ := nodeDefsUses(info, m.Ast)
+				for v, rhs := range defs {
+					if _, isMap := v.Type().Underlying().(*types.Map); !isMap || v.IsField() {
+						continue
+					}
+					tableDefs[v]++
+					cl, ok := ast.Unparen(rhs).(*ast.CompositeLit)
+					if rhs == nil || !ok || len(cl.Elts) == 0 {
+						continue
+					}
+					all := true
+					for _, el := range cl.Elts {
+						kv, ok := el.(*ast.KeyValueExpr)
+						if !ok {
+							all = false
+							break
+						}
+						if u, ok := identObj(info, ast.Unparen(kv.Value)).(*types.Var); !ok || !isWriterParam[u] {
+							all = false
+						}
+					}
+					isTable[v] = all
+				}
+			}
+			for _, m := range g.Nodes {
+				// an element store or delete disqualifies the table
+				if m.Ast == nil {
+					continue
+				}
+				ast.Inspect(m.Ast, func(x ast.Node) bool {
+					switch y := x.(type) {
+					case *ast.AssignStmt:
+						for _, l := range y.Lhs {
+							if ie, ok := ast.Unparen(l).(*ast.IndexExpr); ok {
+								if v, ok := identObj(info, ie.X).(*types.Var); ok {
+									isTable[v] = false
+								}
+							}
+						}
+					case *ast.CallExpr:
+						if id, ok := ast.Unparen(y.Fun).(*ast.Ident); ok && (id.Name == "delete" || id.Name == "clear") && len(y.Args) > 0 {
+							if v, ok := identObj(info, y.Args[0]).(*types.Var); ok {
+								isTable[v] = false
+							}
+						}
+					}
+					return true
+				})
+			}
+			for v, k := range tableDefs {
+				if k != 1 {
+					isTable[v] = false
+				}
+			}
 			// the walk carries the path domain's facts too (ok := true … if !ok)
 			pd := &pathDomain{p: p, f: f}
 			type item struct {
@@ -1703,6 +1765,15 @@ func ruleStdioDelivery(c *Ctx) {
 				}
 				seenSt[n][k] = true
 				work = append(work, item{n, s0})
+			}
+			// a lookup's value is a writer only while its ok flag is not known false
+			condDrop := func(s0 Store) Store {
+				for _, k := range s0.Keys("HC:") {
+					if s0.Get("P:"+s0.Get(k)) == "false" {
+						s0 = s0.Without("H:" + strings.TrimPrefix(k, "HC:")).Without(k)
+					}
+				}
+				return s0
 			}
 			for _, e := range recvN.Succs {
 				if s2, ok := pd.Refine(e, NewStore()); ok {
@@ -1768,12 +1839,23 @@ func ruleStdioDelivery(c *Ctx) {
 								} else {
 									o = o.Without(holdKey(v))
 								}
+								o = o.Without("HC:" + varKey(v))
+							}
+							if isAs && len(as.Lhs) == 2 && len(as.Rhs) == 1 {
+								if ie, ok := ast.Unparen(as.Rhs[0]).(*ast.IndexExpr); ok {
+									tv, _ := identObj(info, ie.X).(*types.Var)
+									wv, _ := identObj(info, as.Lhs[0]).(*types.Var)
+									okv, _ := identObj(info, as.Lhs[1]).(*types.Var)
+									if tv != nil && isTable[tv] && wv != nil && okv != nil && !wv.IsField() && !okv.IsField() {
+										o = o.With(holdKey(wv), "1").With("HC:"+varKey(wv), varKey(okv))
+									}
+								}
 							}
 						}
 					}
 					for _, e := range cur.n.Succs {
 						if s2, ok := pd.Refine(e, o); ok {
-							push(e.To, s2)
+							push(e.To, condDrop(s2))
 						}
 					}
 				}
